@@ -289,6 +289,20 @@ pub fn record_run(case: &Value) -> Value {
     out.extend(evs);
     let mut end = json!({"e": "end", "k": obs["k"], "pkt": obs["pkt"], "mbuf": obs["mbuf"], "allow": obs["allow"],
                          "class": obs["class"], "msg": obs["msg"]});
+    // C03 / C04, direction A: programs the interpreter ran to a value (all accesses were in bounds)
+    // and that are defined by construction are also run on the compiled engines; the trace
+    // specification demands equal results whenever IT judges the run defined.
+    let structured = case["id"][2] == json!(1);
+    for engine in ["jit", "cl"] {
+        let mut r = json!({"k": "skipped", "val": word_json(0), "pkt": [], "mbuf": []});
+        if structured && obs["k"] == "ok" && !(engine == "cl" && exec::has_local_call(case)) {
+            let o = exec::run_case_with_hook(case, engine, false);
+            r = json!({"k": o["k"], "val": if o["k"] == "ok" { o["val"].clone() } else { word_json(0) },
+                       "pkt": if o["pkt"].is_null() { json!([]) } else { o["pkt"].clone() },
+                       "mbuf": if o["mbuf"].is_null() { json!([]) } else { o["mbuf"].clone() }});
+        }
+        end[engine] = r;
+    }
     end["val"] = if obs["k"] == "ok" { obs["val"].clone() } else { word_json(0) };
     for f in ["class", "msg"] {
         if end[f].is_null() {
